@@ -180,7 +180,8 @@ PROPS["C02"]["runs"] += [{"name": "rsgen-trk", "src": "h_enc.c", "variant": "trk
 for _p in ("C01", "C02", "C10"):
     PROPS[_p]["runs"] += [{"name": "enc-then-dec-one-session-trk", "src": "h_enc.c", "variant": "trk", "args": ["--mode", "both"]}]
 PROPS["C08"]["runs"] += [{"name": "enc-then-dec-one-session-trk", "src": "h_enc.c", "variant": "trk", "args": ["--mode", "both"]},
-                         {"name": "enc-rs-trk", "src": "h_enc.c", "variant": "trk", "args": ["--mode", "rs"]}]
+                         {"name": "enc-rs-trk", "src": "h_enc.c", "variant": "trk", "args": ["--mode", "rs"]},
+                         {"name": "enc-ldpc-trk", "src": "h_enc.c", "variant": "trk", "args": ["--mode", "ldpc"]}]
 PROPS["C07"]["runs"] += [{"name": "enc-then-dec-one-session-asan", "src": "h_enc.c", "variant": "asan", "args": ["--mode", "both"]},
                          {"name": "enc-rs-asan", "src": "h_enc.c", "variant": "asan", "args": ["--mode", "rs"]},
                          {"name": "enc-ldpc-asan", "src": "h_enc.c", "variant": "asan", "args": ["--mode", "ldpc"]}]
